@@ -33,8 +33,35 @@ def main():
         chk.finish()
     except SystemExit:
         raise
-    except BaseException:
+    except (KeyboardInterrupt, MemoryError):
         traceback.print_exc()
+        sys.exit(common.EXIT_BROKEN)
+    except BaseException as e:
+        traceback.print_exc()
+        # Where did it come from? An exception raised INSIDE the repository under test, on inputs on which the
+        # harness expects it to return (it does on the unchanged tree), means the implementation no longer behaves
+        # as the model does: that is a broken correspondence (no failing input attached), not a tool failure.
+        frames = traceback.extract_tb(e.__traceback__)
+        repo = str(common.REPO.resolve())
+        inner = frames[-1].filename if frames else ""
+        try:
+            inner_in_repo = os.path.realpath(inner).startswith(repo + os.sep)
+        except Exception:
+            inner_in_repo = False
+        if inner_in_repo and not a.replay and "chk" in locals():
+            try:
+                where = f"{os.path.relpath(os.path.realpath(inner), repo)}:{frames[-1].lineno} in {frames[-1].name}"
+                chk.violation(
+                    f"obligation-broken: correspondence: the implementation raised {type(e).__name__} at {where} where the harness (and the model) expect it to return",
+                    {"exception": repr(e)[:300], "traceback": traceback.format_exc()[-3000:],
+                     "note": "no failing input found; the run of the suite stopped here"},
+                    found_input=False,
+                )
+                chk.finish()
+            except SystemExit:
+                raise
+            except BaseException:
+                traceback.print_exc()
         print(f"[{prop}] check machinery failed (this is not a property violation)", file=sys.stderr)
         sys.exit(common.EXIT_BROKEN)
 
